@@ -73,7 +73,7 @@ def zdd_witness(scratch):
 
 
 def _zdd_unit(prop, explanation, level="proof"):
-    return dict(witness=zdd_witness, prop=prop, template="contracts/verus/zdd.rs.tmpl", gen_name="zdd", ledger="obligations/zdd.json",
+    return dict(witness=zdd_witness, verus_args=["--rlimit", "40"], prop=prop, template="contracts/verus/zdd.rs.tmpl", gen_name="zdd", ledger="obligations/zdd.json",
                 explanation=explanation, level=level, assumptions=ZDD_ASSUME)
 
 VERUS_UNITS["C06"] = _zdd_unit("C06",
@@ -133,3 +133,12 @@ def replay(prop, path):
     finally:
         import shutil
         shutil.rmtree(scratch, ignore_errors=True)
+
+
+VERUS_UNITS["C07"] = _zdd_unit("C07",
+    "(A) every table-mutating function of varpulis-zdd (arena and standalone) is verified to preserve the table invariant wf: every stored "
+    "node is reduced (hi != Empty), variables strictly increase along both branches, children precede parents, and the hash index is a "
+    "bijection (no triple stored twice). (B) lemma_canonical / lemma_table_canonical prove, by induction, that in any table satisfying wf "
+    "two references denoting the same family are EQUAL (same root). (C) GC core: remap_to_new_table / remap_ref are verified to return, in "
+    "the fresh table, a reference denoting exactly the family of the live handle, and the fresh table satisfies wf. NOT proved: gc's "
+    "top-level glue (closure), and 'iteration yields each member exactly once' (see level note).", level="proof")
